@@ -71,9 +71,12 @@ def run_programs(res, rng, nprog, tier):
         lines.append(f"pkg\tp\t{len(files) - 1}\t1\t-")
         lines.append("ws-end")
         for (bid, name, mod, ty, hov) in g.binders:
-            m = re.search(r"\b" + re.escape(name) + r"\b", texts[mod])
+            if bid in g.anchors:
+                at = re.search(g.anchors[bid], texts[mod]).start(1)
+            else:
+                at = re.search(r"\b" + re.escape(name) + r"\b", texts[mod]).start()
             plan.append((k, "loc", bid, name, ty, hov, len(lines)))
-            lines.append(f"hover\t{mods.index(mod)}\t{m.start()}")
+            lines.append(f"hover\t{mods.index(mod)}\t{at}")
         for f in g.fns:
             off = texts[f.module].index("pub fn " + f.name + "(") + 7
             plan.append((k, "fn", f.name, f.name, f.ty(), True, len(lines)))
